@@ -19,7 +19,7 @@ func init() {
 			"the in-flight slot (the bounded responses queue, capacity MaxOpenRequests-1) should be taken before the request is written (C14.slot — violated on the pinned tree, known finding F7); all connection reads/writes go through readFull/write, which set the deadline first (C14.deadline); sendAndReceive returns only after receiving from the promise (C14.await). " +
 			"Shared with C10: the response header length is checked before anything else is believed, so that the body buffer size computed from it cannot be negative (C10.cap). " +
 			"NOT covered: server behaviours, Close racing with in-flight calls, fairness between callers.",
-		Rules: []func(*Ctx){c14Lock, c14OneOutcome, c14Slot, c14Deadline, c14Await, c14OpenOnce, c14ConnErr, c10Cap},
+		Rules: []func(*Ctx){c14Lock, c14OneOutcome, c14Slot, c14Deadline, c14Await, c14OpenOnce, c14ConnErr, c10Cap, c14ErrLost},
 	})
 }
 
@@ -212,7 +212,7 @@ func c14Deadline(c *Ctx) {
 	p := c.P
 	rule := "C14.deadline"
 	c.Doc(rule, "io.ReadFull on the connection occurs only in Broker.readFull after SetReadDeadline; conn.Write only in Broker.write after SetWriteDeadline")
-	c.Floor(rule, 2)
+	c.Floor(rule, 4)
 	type rw struct {
 		host, deadline string
 		io             Ev
@@ -246,6 +246,11 @@ func c14Deadline(c *Ctx) {
 		it, path := reg.MustPrecede(dl, w.io)
 		c.Check(it.IsZero() && len(reg.Find(w.io)) > 0, rule, fn, w.deadline, nil, w.host+" sets the deadline before the I/O",
 			w.host+" performs connection I/O without setting the deadline first", path)
+		// one I/O operation per call: a second read (or write) after a failed or partial first one starts again at the
+		// beginning of the caller's buffer while the stream has moved on — the bytes already consumed are lost and the
+		// frame boundaries shift, so the call returns bytes of the next response with a nil error
+		cr := reg.Count(w.io)
+		c.Check(!cr.HasTwo(), rule, fn, "single-io:"+w.deadline, cr.Second.Instr(), w.host+" performs at most one I/O operation per call", w.host+" can perform a second I/O operation on the connection in one call (a retry after a timeout or a partial transfer): it restarts at the beginning of the buffer although part of the frame was already consumed, so the stream is shifted and a call gets bytes that belong to another call's response, with no error", nil)
 	}
 }
 
